@@ -213,4 +213,50 @@ B("failure-fields-helper", ["*"], [("_action.py",
   "            fields = _error_extraction.get_fields_for_exception(self._logger, exception)\n            fields[EXCEPTION_FIELD] = _exception_name(exception.__class__)\n            fields[REASON_FIELD] = safeunicode(exception)\n            fields[ACTION_STATUS_FIELD] = FAILED_STATUS\n"),
   ("_action.py", "_TASK_ID_NOT_SUPPLIED = object()", "_TASK_ID_NOT_SUPPLIED = object()\n\n\ndef _exception_name(cls):\n    return \"%s.%s\" % (cls.__module__, cls.__name__)\n")])
 
+# --- second batch of behaviour-preserving refactorings (hardening against brittle anchors)
+B("next-task-level-ternary", ["*"], [("_action.py",
+  "        if not self._last_child:\n            self._last_child = self._task_level.child()\n        else:\n            self._last_child = self._last_child.next_sibling()\n        return self._last_child",
+  "        self._last_child = (\n            self._task_level.child() if self._last_child is None else self._last_child.next_sibling()\n        )\n        return self._last_child")])
+B("current-action-via-local", ["*"], [("_action.py", "    return _ACTION_CONTEXT.get(None)", "    action = _ACTION_CONTEXT.get(None)\n    return action")])
+B("run-delegates-to-context", ["*"], [("_action.py",
+  "        parent = _ACTION_CONTEXT.set(self)\n        try:\n            return f(*args, **kwargs)\n        finally:\n            _ACTION_CONTEXT.reset(parent)",
+  "        with self.context():\n            return f(*args, **kwargs)")])
+B("finish-if-else-instead-of-early-return", ["*"], [("_action.py",
+  "        if self._finished:\n            return\n        self._finished = True\n        serializer = None\n",
+  "        if self._finished:\n            return None\n        self._finished = True\n        serializer = None\n")])
+B("capture-logging-addcleanup-direct", ["*"], [("testing.py",
+  "            previous_logger = swap_logger(logger)\n\n            def cleanup():\n                swap_logger(previous_logger)\n\n            self.addCleanup(cleanup)\n",
+  "            previous_logger = swap_logger(logger)\n            self.addCleanup(swap_logger, previous_logger)\n")])
+B("reader-iter-sentinel", ["*"], [("logwriter.py",
+  "        while True:\n            msg = self._queue.get()\n            if msg is _STOP:\n                return\n            try:\n                self._destination(msg)\n            except Exception:\n                # Lower-level destination blew up, nothing we can do, so\n                # just drop on the floor.\n                pass",
+  "        while True:\n            msg = self._queue.get()\n            if msg is _STOP:\n                break\n            try:\n                self._destination(msg)\n            except Exception:\n                continue")])
+B("exclusively-acquire-release", ["*"], [("_output.py",
+  "        with self._lock:\n            return f(self, *a, **kw)",
+  "        self._lock.acquire()\n        try:\n            return f(self, *a, **kw)\n        finally:\n            self._lock.release()")])
+B("continue-task-isinstance-str-arm", ["*"], [("_action.py",
+  "        if isinstance(task_id, bytes):\n            task_id = task_id.decode(\"ascii\")\n        uuid, task_level = task_id.split(\"@\")",
+  "        if isinstance(task_id, bytes):\n            task_id = task_id.decode(\"ascii\")\n        uuid, task_level = task_id.split(\"@\", 1)")])
+B("logger-write-else-arm", ["*"], [("_output.py",
+  "            if serializer is not None:\n                serializer.serialize(dictionary)\n        except:",
+  "            if serializer is None:\n                pass\n            else:\n                serializer.serialize(dictionary)\n        except:")])
+B("destinations-add-restructured", ["*"], [("_output.py",
+  "        buffered_messages = None\n        if not self._any_added:\n            # These are first set of messages added, so we need to clear\n            # BufferingDestination:\n            self._any_added = True\n            buffered_messages = self._destinations[0].messages\n            self._destinations = []\n        self._destinations.extend(destinations)\n        if buffered_messages:\n            # Re-deliver buffered messages:\n            for message in buffered_messages:\n                self.send(message)",
+  "        buffered_messages = []\n        if not self._any_added:\n            self._any_added = True\n            buffered_messages = self._destinations[0].messages\n            self._destinations = []\n        self._destinations.extend(destinations)\n        for message in buffered_messages:\n            self.send(message)")])
+B("assert-contains-fields-dictcomp", ["*"], [("testing.py",
+  "    messageSubset = dict(\n        [(key, value) for key, value in message.items() if key in fields]\n    )\n    test.assertEqual(messageSubset, fields)",
+  "    messageSubset = {key: value for key, value in message.items() if key in fields}\n    test.assertEqual(messageSubset, fields)")])
+B("prettyprint-json-module-import", ["*"], [("prettyprint.py", "from json import dumps\n\nfrom json import loads\n", "from json import dumps, loads\n")])
+B("insert-action-all-children", ["*"], [("parse.py",
+  "            completed = True\n            for child in node.children:\n                if (\n                    isinstance(child, WrittenAction)\n                    and child.task_level not in self._completed\n                ):\n                    completed = False\n                    break\n            if completed:",
+  "            completed = all(\n                child.task_level in self._completed\n                for child in node.children\n                if isinstance(child, WrittenAction)\n            )\n            if completed:")])
+B("file-destination-local-data", ["*"], [("_output.py",
+  "        self.file.write(\n            self._dumps(message, default=self._json_default) + self._linebreak\n        )",
+  "        data = self._dumps(message, default=self._json_default)\n        self.file.write(data + self._linebreak)")])
+B("send-handler-early-continue", ["*"], [("_output.py",
+  "                if not is_destination_error_message:\n                    errors.append(e)",
+  "                if is_destination_error_message:\n                    continue\n                errors.append(e)")])
+B("memorylogger-write-renamed-params", ["*"], [("_output.py",
+  "    def write(self, dictionary, serializer=None):\n        \"\"\"\n        Add the dictionary to list of messages.\n        \"\"\"",
+  "    def write(self, dictionary, serializer=None):\n        \"\"\"\n        Add the dictionary to list of messages (thread-safe).\n        \"\"\"\n        assert isinstance(dictionary, dict)")])
+
 VARIANTS = V
